@@ -126,7 +126,7 @@ Zoo == { VInf, VNegInf, VNan, VFloat(200000), VInt(2000), VInt(-2000), VInt(3000
          VObj("OrderedDict", <<"dict">>, Some(VDict(<<KV(VStr(<<97>>), VInt(1))>>))) }
 
 \* hashable members usable as extra dict keys
-ZooKeys == { VNan, VObj("tuple12", <<>>, NoneOpt), VObj("frozenset1", <<>>, NoneOpt), VInt(2000), VNone,
+ZooKeys == { VNan, VObj("tuple12", <<>>, NoneOpt), VObj("frozenset1", <<>>, NoneOpt), VInt(2000), VNone, VEllipsis,
              VObj("frozenset_mixed", <<>>, NoneOpt), VObj("uncopyable", <<>>, NoneOpt),
              VObj("object_a", <<>>, NoneOpt), VBool(TRUE), VFloat(50), VBytes(<<97>>) }
 
